@@ -191,6 +191,25 @@ Example C03_sqrt_nonvacuous :
   ctx_sqrt 10 2 MUp 9999 (-4) = Ok (AInexact 1 0 AddOne) /\ dlen 10 15 <= 3.
 Proof. vm_compute. repeat split; discriminate. Qed.
 
+From Dashu Require Import Float.AddParamsProof.
+From DashuGen Require Import FloatAddParams.
+
+(** the far-apart test, the precision of its stand-in, the extra digit on subtraction and the sqrt
+    scaling exponent are re-read from float/src/add.rs / root.rs on every run *)
+Theorem C03_add_source_constants :
+  (forall rp d, far_low_prec_ls_gen rp d = far_low_prec rp d) /\
+  (forall rp d, far_low_prec_sl_gen rp d = far_low_prec rp d) /\
+  (forall est ediff rp big, far_cond_ls_gen est ediff rp big = ((est + 1 <? ediff) && (est + 1 + rp <? big + ediff))) /\
+  (forall est ediff rp big, far_cond_sl_gen est ediff rp big = ((est + 1 <? ediff) && (est + 1 + rp <? big + ediff))) /\
+  (forall p b, rnd_precision_ls_gen p b = p + b2z b) /\
+  (forall p b, rnd_precision_sl_gen p b = p + b2z b).
+Proof. exact add_source_constants. Qed.
+Print Assumptions C03_add_source_constants.
+
+Theorem C03_sqrt_source_constants : forall B p s e, sqrt_shift_gen p (dlen B s) e = sqrt_shift B p s e.
+Proof. exact sqrt_source_constants. Qed.
+Print Assumptions C03_sqrt_source_constants.
+
 Example C03_add_nonvacuous :
   ctx_add_x 10 3 MHalfEven 123 0 456 (-2) = AInexact 128 0 AddOne /\
   ctx_add_x 2 10 MHalfAway 1 0 1 (-30) = AInexact 512 (-9) NoOp /\
